@@ -572,7 +572,11 @@ func builtinAppend(args ...Object) (Object, error) {
 	case *Array:
 		return &Array{Value: append(arg.Value, args[1:]...)}, nil
 	case *ImmutableArray:
-		return &Array{Value: append(arg.Value, args[1:]...)}, nil
+		// copy: the result is mutable and must not share (or write into
+		// spare capacity of) the immutable array's storage
+		elems := make([]Object, 0, len(arg.Value)+len(args)-1)
+		elems = append(elems, arg.Value...)
+		return &Array{Value: append(elems, args[1:]...)}, nil
 	default:
 		return nil, ErrInvalidArgumentType{
 			Name:     "first",
